@@ -1367,16 +1367,65 @@ class Model:
             return True
         if isinstance(name, ast.Subscript) and literal_strings(name.value):
             return True
+        def table_node(e):
+            """the display a name / cls.X / self.X / Class.X is bound to (module level, or in a class body of this module)"""
+            nm = None
+            if isinstance(e, ast.Name):
+                nm = e.id
+            elif isinstance(e, ast.Attribute) and isinstance(e.value, ast.Name):
+                nm = e.attr
+            if nm is None:
+                return e if isinstance(e, (ast.Tuple, ast.List, ast.Dict)) else None
+            cands = []
+            for st in ast.walk(m.tree):
+                if isinstance(st, ast.Assign) and len(st.targets) == 1 and isinstance(st.targets[0], ast.Name) and st.targets[0].id == nm:
+                    cands.append(st.value)
+                elif isinstance(st, ast.AnnAssign) and isinstance(st.target, ast.Name) and st.target.id == nm and st.value is not None:
+                    cands.append(st.value)
+            return cands[0] if len(cands) == 1 and isinstance(cands[0], (ast.Tuple, ast.List, ast.Dict)) else None
+
+        def column_is_strings(tbl, pos) -> bool:
+            """rows of a display of displays: the element at `pos` of every row is a string constant (None: the rows themselves are)"""
+            rows = list(tbl.keys) if isinstance(tbl, ast.Dict) and pos == "key" else (list(tbl.values) if isinstance(tbl, ast.Dict) else list(tbl.elts))
+            if not rows:
+                return False
+            for r in rows:
+                x = r
+                if pos not in (None, "key", "value"):
+                    if not (isinstance(r, (ast.Tuple, ast.List)) and pos < len(r.elts)):
+                        return False
+                    x = r.elts[pos]
+                if not (isinstance(x, ast.Constant) and isinstance(x.value, str)):
+                    return False
+            return True
         if isinstance(name, ast.Name):
             for n in ast.walk(top):
                 if isinstance(n, (ast.For, ast.comprehension)):
                     tgt_names = {x.id for x in ast.walk(n.target) if isinstance(x, ast.Name)}
                     if name.id in tgt_names:
                         it = n.iter
+                        how = None
                         if isinstance(it, ast.Call) and isinstance(it.func, ast.Attribute) and it.func.attr in ("items", "keys", "values"):
+                            how = it.func.attr
                             it = it.func.value
                         if literal_strings(it):
                             return True
+                        # a table of rows (possibly a class-level constant, rows mixing names and classes): the name's own column
+                        tbl = table_node(it)
+                        if tbl is not None:
+                            tg = n.target
+                            if isinstance(tg, ast.Name):
+                                pos = "key" if isinstance(tbl, ast.Dict) and how in (None, "keys") else ("value" if how == "values" else None)
+                            elif isinstance(tg, ast.Tuple) and how == "items" and len(tg.elts) == 2:
+                                pos = "key" if isinstance(tg.elts[0], ast.Name) and tg.elts[0].id == name.id else "value"
+                            elif isinstance(tg, ast.Tuple):
+                                pos = next((k for k, x in enumerate(tg.elts) if isinstance(x, ast.Name) and x.id == name.id), None)
+                                if pos is None:
+                                    continue
+                            else:
+                                continue
+                            if column_is_strings(tbl, pos):
+                                return True
         return False
 
     # ------------------------------------------------------------- utilities
